@@ -1,6 +1,7 @@
 package main
 
 import (
+	"encoding/json"
 	"fmt"
 	"go/token"
 	"go/types"
@@ -181,9 +182,15 @@ type c19Hit struct {
 // caller resolves (transitively, bounded) to one and the same table entry, that entry's key is used.
 // The per-entry site count is taken over the function together with its helpers, so a site *added*
 // in a helper is still reported as a new site.
-func c19TableKey(p *Program, table map[string]c19Entry, fn *ssa.Function) string {
+// "Has an entry" includes the entries a function inherits from pinned callees that no longer exist
+// (c19Inheritance).
+func c19TableKey(p *Program, table map[string]c19Entry, inh map[string][]string, fn *ssa.Function) string {
 	own := c19FnKey(fn)
-	if _, ok := table[own]; ok {
+	admits := func(k string) bool {
+		_, ok := table[k]
+		return ok || len(inh[k]) > 0
+	}
+	if admits(own) {
 		return own
 	}
 	var resolve func(f *ssa.Function, d int, seen map[*ssa.Function]bool) (string, bool)
@@ -192,7 +199,7 @@ func c19TableKey(p *Program, table map[string]c19Entry, fn *ssa.Function) string
 			f = f.Parent()
 		}
 		k := c19FnKey(f)
-		if _, ok := table[k]; ok {
+		if admits(k) {
 			return k, true
 		}
 		if d >= 3 || seen[f] || !p.inlinable(f) {
@@ -216,32 +223,269 @@ func c19TableKey(p *Program, table map[string]c19Entry, fn *ssa.Function) string
 	return own
 }
 
+// Pinned call graph (anchors.json: every top-level product function of the pinned tree with its
+// resolved callees, closures folded into their parent), in table-key spelling.
+var c19Pinned struct {
+	done    bool
+	funcs   map[string]bool
+	callers map[string][]string // callee -> callers
+}
+
+func c19PinnedGraph() (funcs map[string]bool, callers map[string][]string) {
+	if !c19Pinned.done {
+		c19Pinned.done = true
+		c19Pinned.funcs = map[string]bool{}
+		c19Pinned.callers = map[string][]string{}
+		var recorded map[string]anchorFP
+		if len(anchorsJSON) > 0 && json.Unmarshal(anchorsJSON, &recorded) == nil {
+			short := func(id string) string { return strings.ReplaceAll(id, "package-operator.run/", "") }
+			for id, fp := range recorded {
+				c19Pinned.funcs[short(id)] = true
+				for _, cal := range fp.Callees {
+					c19Pinned.callers[short(cal)] = append(c19Pinned.callers[short(cal)], short(id))
+				}
+			}
+			for k := range c19Pinned.callers {
+				sort.Strings(c19Pinned.callers[k])
+			}
+		}
+	}
+	return c19Pinned.funcs, c19Pinned.callers
+}
+
+var c19CurrentKeysCache = map[*Program]map[string]bool{}
+
+func c19CurrentKeys(p *Program) map[string]bool {
+	if m := c19CurrentKeysCache[p]; m != nil {
+		return m
+	}
+	m := map[string]bool{}
+	for _, f := range p.Funcs {
+		m[c19FnKey(f)] = true
+	}
+	c19CurrentKeysCache[p] = m
+	return m
+}
+
+// c19Inheritance: a triaged function of the pinned tree that no longer exists (merged into its
+// caller, or turned into a function of another shape that rename tracking does not match) hands its
+// table entry to the functions that called it in the pinned tree — its code can only have moved
+// there (or into new helpers of theirs, which c19TableKey resolves to them). Result: current function
+// key -> keys of the vanished entries it inherits (sorted). Callers that vanished as well pass the
+// entry further up (bounded).
+func c19Inheritance(p *Program, table map[string]c19Entry) map[string][]string {
+	pinned, callers := c19PinnedGraph()
+	current := c19CurrentKeys(p)
+	out := map[string][]string{}
+	var keys []string
+	for k := range table {
+		keys = append(keys, k)
+	}
+	sort.Strings(keys)
+	for _, v := range keys {
+		if current[v] || !pinned[v] {
+			continue
+		}
+		seen := map[string]bool{v: true}
+		frontier := []string{v}
+		for depth := 0; depth < 3 && len(frontier) > 0; depth++ {
+			var next []string
+			for _, f := range frontier {
+				for _, cl := range callers[f] {
+					if seen[cl] {
+						continue
+					}
+					seen[cl] = true
+					if current[cl] {
+						out[cl] = append(out[cl], v)
+					} else {
+						next = append(next, cl)
+					}
+				}
+			}
+			frontier = next
+		}
+	}
+	return out
+}
+
+// c19SiteKey identifies a site by its source position: the copies of one statement that the
+// normaliser's tail duplication produces are one site.
+func c19SiteKey(p *Program, in ssa.Instruction) string {
+	pos := instrPos(in)
+	if !pos.IsValid() {
+		return fmt.Sprintf("%p", in)
+	}
+	ps := p.Fset.Position(pos)
+	return fmt.Sprintf("%s:%d:%d", ps.Filename, ps.Line, ps.Column)
+}
+
+// c19Admit applies a triage table to the hits of one lint. Hits are grouped by table key (function
+// with its extracted helpers). A group is admitted by the function's own entry plus the entries it
+// inherits from vanished pinned callees: the number of distinct sites must not exceed the admitted
+// total, and every site must be assigned to an entry whose guard check (if any) it passes, no entry
+// taking more sites than it admits.
 func c19Admit(c *Ctx, table map[string]c19Entry, hits []c19Hit, what string) {
-	count := map[string]int{}
+	p := c.P
+	inh := c19Inheritance(p, table)
 	keyOf := map[*ssa.Function]string{}
+	sites := map[string][]string{} // key -> distinct site keys in order of appearance
+	seenSite := map[string]bool{}
 	for _, h := range hits {
 		if _, ok := keyOf[h.Fn]; !ok {
-			keyOf[h.Fn] = c19TableKey(c.P, table, h.Fn)
+			keyOf[h.Fn] = c19TableKey(p, table, inh, h.Fn)
 		}
-		count[keyOf[h.Fn]]++
+		k := keyOf[h.Fn]
+		sk := c19SiteKey(p, h.Site)
+		if !seenSite[k+"\x00"+sk] {
+			seenSite[k+"\x00"+sk] = true
+			sites[k] = append(sites[k], sk)
+		}
 	}
-	s := c19ScopeOf(c.P)
-	for _, h := range hits {
+	// groups admitted by several entries: evaluate the checks on scratch obligations and assign
+	multi := map[string]map[string]string{} // key -> site key -> admitting entry key ("" = none)
+	results := map[string]*Obligation{}     // hit index|entry key -> evaluated scratch obligation
+	eval := func(hi int, ek string) *Obligation {
+		id := fmt.Sprintf("%d|%s", hi, ek)
+		if o, ok := results[id]; ok {
+			return o
+		}
+		e := table[ek]
+		o := &Obligation{Verdict: Undecided}
+		if e.Check != nil {
+			o.Require("guard obligation of table entry: " + e.Reason)
+			e.Check(c, o, hits[hi].Fn, hits[hi].Site)
+		} else {
+			o.OK("table: " + e.Class + " — " + e.Reason)
+		}
+		results[id] = o
+		return o
+	}
+	entriesOf := func(k string) []string {
+		var es []string
+		if _, ok := table[k]; ok {
+			es = append(es, k)
+		}
+		return append(es, inh[k]...)
+	}
+	total := func(k string) int {
+		n := 0
+		for _, ek := range entriesOf(k) {
+			n += table[ek].N
+		}
+		return n
+	}
+	var groupKeys []string
+	for k := range sites {
+		groupKeys = append(groupKeys, k)
+	}
+	sort.Strings(groupKeys)
+	for _, k := range groupKeys {
+		sks := sites[k]
+		es := entriesOf(k)
+		if len(es) < 2 && !(len(es) == 1 && es[0] != k) {
+			continue
+		}
+		if len(sks) > total(k) {
+			continue
+		}
+		hitsAt := map[string][]int{}
+		for hi, h := range hits {
+			if keyOf[h.Fn] == k {
+				sk := c19SiteKey(p, h.Site)
+				hitsAt[sk] = append(hitsAt[sk], hi)
+			}
+		}
+		adm := func(si, ei int) bool {
+			for _, hi := range hitsAt[sks[si]] {
+				if eval(hi, es[ei]).Verdict != Discharged {
+					return false
+				}
+			}
+			return true
+		}
+		assigned := make([]int, len(sks))
+		for i := range assigned {
+			assigned[i] = -1
+		}
+		load := make([]int, len(es))
+		var try func(si int, seen []bool) bool
+		try = func(si int, seen []bool) bool {
+			for ei := range es {
+				if seen[ei] || !adm(si, ei) {
+					continue
+				}
+				seen[ei] = true
+				if load[ei] < table[es[ei]].N {
+					load[ei]++
+					assigned[si] = ei
+					return true
+				}
+				for sj := range sks {
+					if assigned[sj] == ei && try(sj, seen) {
+						assigned[si] = ei
+						return true
+					}
+				}
+			}
+			return false
+		}
+		multi[k] = map[string]string{}
+		for si := range sks {
+			try(si, make([]bool, len(es)))
+		}
+		for si, sk := range sks {
+			if assigned[si] >= 0 {
+				multi[k][sk] = es[assigned[si]]
+			} else {
+				multi[k][sk] = ""
+			}
+		}
+	}
+	s := c19ScopeOf(p)
+	for hi, h := range hits {
 		k := keyOf[h.Fn]
 		o := c.Ob(h.Fn, h.Construct, h.Site, c.rule.Statement)
 		o.Note(h.Detail)
-		e, ok := table[k]
+		es := entriesOf(k)
 		switch {
-		case !ok:
+		case len(es) == 0:
 			o.Require("a triage table entry for " + k)
 			o.Fail("un-triaged %s in %s (reachable: %s): %s — read the site, then fix it or add a reasoned table entry", what, k, pathTo(s.via, h.Fn), h.Detail)
-		case count[k] > e.N:
-			o.Fail("%s has %d %s site(s), the triage table admits %d (%s: %s) — a new site was added", k, count[k], what, e.N, e.Class, e.Reason)
-		case e.Check != nil:
-			o.Require("guard obligation of table entry: " + e.Reason)
-			e.Check(c, o, h.Fn, h.Site)
+		case len(sites[k]) > total(k):
+			e := table[es[0]]
+			o.Fail("%s has %d %s site(s), the triage table admits %d (%s: %s) — a new site was added", k, len(sites[k]), what, total(k), e.Class, e.Reason)
+		case multi[k] != nil:
+			ek := multi[k][c19SiteKey(p, h.Site)]
+			if ek == "" {
+				var why []string
+				for _, cand := range es {
+					if r := eval(hi, cand); r.Verdict != Discharged {
+						why = append(why, cand+": "+r.Detail)
+					}
+				}
+				if len(why) == 0 {
+					why = append(why, "every entry it could match is used up by another site")
+				}
+				o.Require("a triage table entry of " + k + " (own or inherited from " + strings.Join(inh[k], ", ") + ") that admits this site")
+				o.Fail("%s in %s is not admitted by the table entries available to it — %s", what, k, strings.Join(why, "; "))
+				continue
+			}
+			r := eval(hi, ek)
+			o.Required = append(o.Required, r.Required...)
+			o.Found = append(o.Found, r.Found...)
+			o.Verdict, o.Detail = r.Verdict, r.Detail
+			if ek != k {
+				o.Note("admitted by the entry of " + ek + ", which no longer exists; it was called by " + k + " in the pinned tree")
+			}
 		default:
-			o.OK("table: " + e.Class + " — " + e.Reason)
+			e := table[es[0]]
+			if e.Check != nil {
+				o.Require("guard obligation of table entry: " + e.Reason)
+				e.Check(c, o, h.Fn, h.Site)
+			} else {
+				o.OK("table: " + e.Class + " — " + e.Reason)
+			}
 		}
 	}
 }
@@ -1001,8 +1245,10 @@ func c19r5(c *Ctx) {
 	// The `include` template helper recurses through text/template (outside the workspace call graph):
 	// every closure that re-enters (*template.Template).ExecuteTemplate must sit behind a depth counter.
 	n := 0
+	fvals := c19FuncValues(c.P)
 	for _, fn := range s.fns {
-		if fn.Parent() == nil {
+		// a function the template engine can call back: a closure, a method value or a function value
+		if fn.Parent() == nil && !fvals[fn] {
 			continue
 		}
 		for _, cl := range callsIn(fn) {
@@ -1051,6 +1297,51 @@ func c19CheckLoadRecursion(c *Ctx, o *Obligation, comp []*ssa.Function) {
 		return
 	}
 	o.OK()
+}
+
+// c19FuncValues: the source functions that are used as function values somewhere in the workspace —
+// function literals, functions and methods referenced outside call position, and methods whose bound
+// method value (`x.m`) or method expression (`T.m`) is taken (go/ssa wraps those in synthetic
+// functions that carry the method's object).
+var c19FuncValuesCache = map[*Program]map[*ssa.Function]bool{}
+
+func c19FuncValues(p *Program) map[*ssa.Function]bool {
+	if m := c19FuncValuesCache[p]; m != nil {
+		return m
+	}
+	m := map[*ssa.Function]bool{}
+	mark := func(g *ssa.Function) {
+		if g.Synthetic != "" && !strings.HasPrefix(g.Synthetic, "instance of") {
+			// bound method wrapper / thunk / promotion wrapper: the declared method behind it
+			if obj, ok := g.Object().(*types.Func); ok && obj != nil {
+				if decl := p.SSA.FuncValue(obj); decl != nil {
+					m[decl] = true
+				}
+			}
+			return
+		}
+		m[g] = true
+	}
+	for _, f := range p.Funcs {
+		for _, b := range f.Blocks {
+			for _, in := range b.Instrs {
+				var ops []*ssa.Value
+				ops = in.Operands(ops)
+				for i, o := range ops {
+					g, ok := (*o).(*ssa.Function)
+					if !ok {
+						continue
+					}
+					if ci, isCall := in.(ssa.CallInstruction); isCall && i == 0 && ci.Common().Value == ssa.Value(g) && !ci.Common().IsInvoke() {
+						continue
+					}
+					mark(g)
+				}
+			}
+		}
+	}
+	c19FuncValuesCache[p] = m
+	return m
 }
 
 func c19CheckIncludeDepth(c *Ctx, o *Obligation, cl Call) {
